@@ -39,12 +39,14 @@ ASSUME = [
 ]
 
 TIERS = {"quick": dict(G=15, GL=15, NMax=48, events=60000),
-         "thorough": dict(G=5, GL=15, NMax=144, events=400000)}
+         "thorough": dict(G=5, GL=15, NMax=144, events=500000)}
 
 
-def judge_trace(name, trace_path, timeout=1500):
-    """Stateless parallel validation of a recorded trace by Trace_Sphere. Returns (tlc result, {index: verdict}, domain counts)."""
-    res = vf.run_tlc(name, "Trace_Sphere", dict(spec="TraceSpec", invariants=["ok"]), workers=12, xmx="12g", timeout=timeout,
+CHUNK = 50000      # events per TLC run: the deserialised trace is one TLC value, and TLC slows down sharply beyond ~100k events
+
+
+def judge_chunk(name, trace_path, offset, timeout):
+    res = vf.run_tlc(name, "Trace_Sphere", dict(spec="TraceSpec", invariants=["ok"]), workers=12, xmx="8g", timeout=timeout,
                      env_extra={"TRACE": trace_path}, extra_args=["-continue"])
     expected = ("Error: Invariant ok is violated.", "Error: The behavior up to this point is:")
     other = [e for e in res["errors"] if e not in expected]
@@ -56,12 +58,37 @@ def judge_trace(name, trace_path, timeout=1500):
         for line in f:
             if line.startswith('<<"TRACE-REJECTED"'):
                 m = re.match(r'<<"TRACE-REJECTED", (\d+), (".*")>>', line.strip())
-                rejected[int(m.group(1))] = json.loads(json.loads(m.group(2)))
+                rejected[offset + int(m.group(1))] = json.loads(json.loads(m.group(2)))
             elif line.startswith('<<"DOMAIN"'):
                 m = re.match(r'<<"DOMAIN", "(\w+)", (TRUE|FALSE), (TRUE|FALSE)>>', line.strip())
                 domain[(m.group(1), "in_domain" if m.group(2) == "TRUE" else ("rhumb_exempt" if m.group(3) == "TRUE" else "outside"))] += 1
     os.remove(res["out"])
     return res, rejected, domain
+
+
+def judge_trace(name, trace_path, timeout=1500):
+    """Stateless parallel validation of a recorded trace by Trace_Sphere, CHUNK events per TLC run.
+    Returns (aggregated tlc result, {1-based event index: verdict}, domain counts, number of events)."""
+    agg = {"name": name, "module": "Trace_Sphere", "generated": 0, "distinct": 0, "depth": 2, "wall_s": 0.0, "runs": 0}
+    rejected, domain = {}, collections.Counter()
+    total = 0
+    with open(trace_path) as f:
+        lines = f.readlines()
+    for k in range(0, len(lines), CHUNK):
+        part = "%s.part%d" % (trace_path, k // CHUNK)
+        with open(part, "w") as o:
+            o.writelines(lines[k:k + CHUNK])
+        res, rj, dm = judge_chunk("%s_%d" % (name, k // CHUNK), part, k, timeout)
+        os.remove(part)
+        n = len(lines[k:k + CHUNK])
+        if res["distinct"] != 2 * n:
+            raise vf.ToolError("Trace_Sphere judged %s states for %d events" % (res["distinct"], n))
+        total += n
+        agg["generated"] += res["generated"]; agg["distinct"] += res["distinct"]; agg["wall_s"] = round(agg["wall_s"] + res["wall_s"], 1)
+        agg["runs"] += 1
+        rejected.update(rj)
+        domain.update(dm)
+    return agg, rejected, domain, total
 
 
 def trace_mismatches(trace_path, rejected, seed):
@@ -103,9 +130,9 @@ def check(tier, seed, t0):
     # ---- (B) recorded probes judged by TLC
     trace = os.path.join(vf.WORK, "C16_trace.ndjson")
     vf.run_harness(["record", "c16", trace, p["events"], "--seed", seed])
-    resB, rejected, domain = judge_trace("C16_trace", trace)
-    if resB["distinct"] != 2 * p["events"]:
-        raise vf.ToolError("Trace_Sphere judged %s states for %d events" % (resB["distinct"], p["events"]))
+    resB, rejected, domain, judged = judge_trace("C16_trace", trace)
+    if judged != p["events"]:
+        raise vf.ToolError("Trace_Sphere judged %d of %d events" % (judged, p["events"]))
     kinds, classes = collections.Counter(), collections.Counter()
     samples = list(summ["samples"][:2])
     with open(trace) as f:
@@ -154,7 +181,7 @@ def replay(path, seed, t0):
         with open(trace, "w") as o:
             for e in events:
                 o.write(json.dumps(e) + "\n")
-        _, rejected, _ = judge_trace("C16_replay_trace", trace)
+        _, rejected, _, _ = judge_trace("C16_replay_trace", trace)
         mism += trace_mismatches(trace, rejected, seed)
     new, hit = vf.split_known("C16", mism)
     vf.log("replayed %d cases: %d mismatching checks (%d not listed as known findings)" % (n, len(mism), len(new)))
